@@ -249,6 +249,88 @@ Theorem C13_constants : dec_div (dec_of_int 1) SATOSHI_PER_COIN = Ret COIN_PER_S
 Proof. exact (conj COIN_PER_SATOSHI_computed MBTC_PER_SATOSHI_computed). Qed.
 Print Assumptions C13_constants.
 
+(* ---- the transaction as a mutable object: refused calls change nothing; value histories --------------------- *)
+(* state-passing distribute_from_split_pool (result, object afterwards) agrees with the value-returning model, and *)
+(* a refused distribution — ValueError at the boundary, AttributeError for a None unspent — leaves the object untouched *)
+Theorem C13_distribute_st_agrees : forall (bc : tx -> Z) (t : tx) (fe : feearg),
+  distribute_from_split_pool_st bc t fe =
+  match distribute_from_split_pool bc t fe with
+  | Ret (t', zc) => (Ret zc, t')
+  | Raise e => (Raise e, t)
+  | OutOfFuel => (OutOfFuel, t)
+  end.
+Proof. exact distribute_st_spec. Qed.
+Print Assumptions C13_distribute_st_agrees.
+
+Theorem C13_refused_distribute_changes_nothing : forall (bc : tx -> Z) (t : tx) (fe : feearg) (e : pyexn),
+  fst (distribute_from_split_pool_st bc t fe) = Raise e -> snd (distribute_from_split_pool_st bc t fe) = t.
+Proof. exact distribute_st_refused. Qed.
+Print Assumptions C13_refused_distribute_changes_nothing.
+
+(* hence trying again (e.g. with a smaller fee) on the same object is the same as a first attempt *)
+Theorem C13_retry_after_refusal : forall (bc : tx -> Z) (t : tx) (fe1 fe2 : feearg) (e : pyexn),
+  fst (distribute_from_split_pool_st bc t fe1) = Raise e ->
+  distribute_from_split_pool_st bc (snd (distribute_from_split_pool_st bc t fe1)) fe2 =
+  distribute_from_split_pool_st bc t fe2.
+Proof. exact distribute_st_retry. Qed.
+Print Assumptions C13_retry_after_refusal.
+
+(* every operation of the object model (observers fee/total_in/total_out/is_coinbase/validate_unspents; mutators
+   set_unspents, unspents_from_db, direct assignment of unspents/txs_out/txs_in, in-place edits, append, clear,
+   distribute_from_split_pool), whatever exception it raises, leaves the object as it was when it raises *)
+Theorem C13_refused_call_changes_nothing :
+  forall (bc : tx -> Z) (srctx : Type) (src_hash : srctx -> bytes) (src_outs : srctx -> list txout)
+         (dbs : nat -> bytes -> option srctx) (o : op) (t : tx) (e : pyexn),
+  fst (step bc srctx src_hash src_outs dbs o t) = Raise e -> snd (step bc srctx src_hash src_outs dbs o t) = t.
+Proof. exact step_refused. Qed.
+Print Assumptions C13_refused_call_changes_nothing.
+
+Theorem C13_observers_change_nothing :
+  forall (bc : tx -> Z) (srctx : Type) (src_hash : srctx -> bytes) (src_outs : srctx -> list txout)
+         (dbs : nat -> bytes -> option srctx) (o : op) (t : tx),
+  is_observer o = true -> snd (step bc srctx src_hash src_outs dbs o t) = t.
+Proof. exact step_observer. Qed.
+Print Assumptions C13_observers_change_nothing.
+
+(* history independence: after any history of calls the object is what the mutators alone make of it, so every
+   observation (fee, total_in, total_out, is_coinbase, validate_unspents) is the one a transaction freshly built
+   from the current fields gives — nothing remembered from earlier observations or earlier unspents *)
+Theorem C13_history_independence :
+  forall (bc : tx -> Z) (srctx : Type) (src_hash : srctx -> bytes) (src_outs : srctx -> list txout)
+         (dbs : nat -> bytes -> option srctx) (h : list op) (t : tx) (o : op),
+  snd (run bc srctx src_hash src_outs dbs h t) = snd (run bc srctx src_hash src_outs dbs (filter is_mutator h) t) /\
+  fst (step bc srctx src_hash src_outs dbs o (snd (run bc srctx src_hash src_outs dbs h t))) =
+  fst (step bc srctx src_hash src_outs dbs o (snd (run bc srctx src_hash src_outs dbs (filter is_mutator h) t))).
+Proof.
+  exact (fun bc srctx src_hash src_outs dbs h t o =>
+    conj (run_state_mutators_only bc srctx src_hash src_outs dbs h t)
+         (observation_history_independent bc srctx src_hash src_outs dbs h t o)).
+Qed.
+Print Assumptions C13_history_independence.
+
+(* refused calls can be deleted from a history too *)
+Theorem C13_history_without_refused_calls :
+  forall (bc : tx -> Z) (srctx : Type) (src_hash : srctx -> bytes) (src_outs : srctx -> list txout)
+         (dbs : nat -> bytes -> option srctx) (h : list op) (t : tx),
+  snd (run bc srctx src_hash src_outs dbs h t) =
+  snd (run bc srctx src_hash src_outs dbs (drop_refused bc srctx src_hash src_outs dbs h t) t).
+Proof. exact run_state_drop_refused. Qed.
+Print Assumptions C13_history_without_refused_calls.
+
+(* loading the unspents from a database and validating against the same database succeeds with fee() of the
+   loaded amounts (all inputs ordinary: not coinbase, hash not null, index >= 0) *)
+Theorem C13_unspents_from_db_then_validate :
+  forall (bc : tx -> Z) (srctx : Type) (src_hash : srctx -> bytes) (src_outs : srctx -> list txout)
+         (dbs : nat -> bytes -> option srctx) (k : nat) (t : tx),
+  (forall j i, nth_error (t_ins t) j = Some i ->
+     txin_is_coinbase i = false /\ i_hash i <> gen_zero32 /\ 0 <= i_index i) ->
+  fst (step bc srctx src_hash src_outs dbs (MutUnspentsFromDb k false) t) = Ret 0 ->
+  let t' := snd (step bc srctx src_hash src_outs dbs (MutUnspentsFromDb k false) t) in
+  t_ins t' = t_ins t /\ t_outs t' = t_outs t /\
+  validate_unspents srctx src_hash src_outs (dbs k) t' = fee t'.
+Proof. exact unspents_from_db_then_validate. Qed.
+Print Assumptions C13_unspents_from_db_then_validate.
+
 (* ---- non-vacuity ---------------------------------------------------------------------------------------------- *)
 Definition ex_sps := [mk_spendable 100 [x51] (repeatb x01 32) 0; mk_spendable 16 [x52] (repeatb x02 32) 1].
 Definition ex_pays := [PayAddr [x51]; PayPair [x52] 7; PayAddr [x53]].
@@ -277,4 +359,19 @@ Proof. vm_compute. split; reflexivity. Qed.
 Example C13_example_money_range :
   satoshi_to_btc (21 * 10 ^ 14) = Ret (mk_dec false (21 * 10 ^ 14) (-8)) /\
   satoshi_to_mbtc (21 * 10 ^ 14) = Ret (mk_dec false (21 * 10 ^ 14) (-5)) /\ 21 * 10 ^ 14 < 10 ^ 20.
+Proof. vm_compute. repeat split; reflexivity. Qed.
+(* the history of the "untrusted amounts first, authentic amounts from the database afterwards" kind: fee 1 from the
+   reported amount 10 is not remembered once the database amount 9 is loaded (fee 1 -> BadSpendable -> reload -> fee 1... ) *)
+Example C13_example_history :
+  fst (run (fun _ => 0) _ fst snd (fun _ => ex_db)
+         [ObsFee; ObsValidate 0; MutUnspentsFromDb 0 false; ObsFee; ObsValidate 0; MutAssignUnspents [Some (mk_txout 20 [x52])]; ObsFee]
+         (ex_tx 10))
+  = [Ret 2; Raise E_BADSPEND; Ret 0; Ret 1; Ret 1; Ret 0; Ret 12].
+Proof. vm_compute. reflexivity. Qed.
+(* refused distribution (1 satoshi left for 2 pool outputs) leaves [0;7;0]; the retry with fee 100 gives 5/7/4 *)
+Example C13_example_refused :
+  let t0 := TxBuildP.initial_tx ex_sps ex_pays 0 1 in
+  let r1 := distribute_from_split_pool_st (fun _ => 0) t0 (FeeInt 108) in
+  fst r1 = Raise E_VALUE /\ snd r1 = t0 /\
+  map o_value (t_outs (snd (distribute_from_split_pool_st (fun _ => 0) (snd r1) (FeeInt 100)))) = [5; 7; 4].
 Proof. vm_compute. repeat split; reflexivity. Qed.
